@@ -95,6 +95,37 @@ func worldAuthz(w *World) {
 	r := w.R
 	viol := func(oracle, sig, f string, a ...any) { w.Violate("C04", oracle, sig, f, a...) }
 
+	// on a fresh server, before anybody has sent a correctly signed heartbeat or work connection: a peer that logged
+	// in properly and then leaves the key out altogether (no timestamp, no key) is owed the same refusals
+	if (scopeHB || scopeWC) && w.KnobBool("keyless_on_fresh_server", 40) {
+		w.Check("C04.keyless-on-fresh-server")
+		first := env.newClient("first", 0)
+		if rr, err := first.login(""); err == nil && mstr(rr, "error") == "" {
+			if scopeWC {
+				if conn, err := first.OfferWorkConn(first.RunID, false, ""); err == nil {
+					st, err := AwaitStart(conn, 3*time.Second)
+					if err == nil && mstr(st, "error") == "" {
+						viol("workconn", "keyless-accepted-on-fresh-server", "NewWorkConns scope on: a work connection without timestamp and key, the first one this server ever saw, was started: %v", st)
+					} else if ne, ok := err.(net.Error); ok && ne.Timeout() {
+						viol("workconn", "keyless-parked-on-fresh-server", "NewWorkConns scope on: a work connection without timestamp and key, the first one this server ever saw, was neither refused nor closed")
+					}
+					conn.Close()
+				}
+			}
+			if scopeHB {
+				from := len(first.Inbox)
+				first.Ping(false, "")
+				if m, ok := first.WaitMsg(5*time.Second, func(m RecvMsg) bool { return m.Seq >= from && m.Type == tPong }); ok {
+					pr := M{}
+					json.Unmarshal(m.Body, &pr)
+					if mstr(pr, "error") == "" {
+						viol("heartbeat", "keyless-accepted-on-fresh-server", "HeartBeats scope on: a heartbeat without timestamp and key, the first one this server ever saw, got a Pong without error")
+					}
+				}
+			}
+			first.Drop()
+		}
+	}
 	// honest client with live traffic and valid heartbeats
 	honest := env.newClient("honest", 1)
 	if rr, err := honest.login(""); err != nil || mstr(rr, "error") != "" {
